@@ -107,8 +107,8 @@ def handle (op : String) (args : List String) (impl : String) : Option Verdict :
   | "ready", [kind, kp, thr, rdy] => some <| Id.run do
     let some thr := thr.toInt? | return bad
     let r := ready (peers kp) thr (peers rdy)
-    let m := if r then "true" else "false"
-    return ⟨m, impl == m, s!"ready:{kind}:{m}"⟩
+    let m := (if r then "true" else "false") ++ ";in=same"
+    return ⟨m, impl == m, s!"ready:{kind}:{r}"⟩
   | "subset", [kind, kp, thr, rdy, _sid] => some <| Id.run do
     let some thr := thr.toInt? | return bad
     let n := subsetSize (peers kp) thr (peers rdy)
